@@ -91,6 +91,30 @@ def export(fx):
              "file-creating functions in aquatic_udp: %s (statistics page path: %s)" % (writers, sorted(html_args)), {"writers": writers})
 
 
+@PROP.rule("R-C20-1b", floor=1, doc="the configured export path is only ever the destination of the rename: no other file-system call names it (remove-then-rename is not atomic)")
+def export_final_path(fx):
+    FS = r"^std::fs::[a-z_]+$|std::fs::File::(create|create_new|open|options)$|std::fs::OpenOptions::open$|tokio::fs::|std::os::unix::fs::"
+    touches = []
+    n_calls = 0
+    for bb in fx.fns(r"^aquatic_udp::", crates=["aquatic_udp"]):
+        if in_test_code(bb) or bb.kind == "promoted":
+            continue
+        if not any(True for _ in bb.calls(FS)):
+            continue
+        for line, callee, args in call_args(fx, bb, FS):
+            n_calls += 1
+            shown = [show(strip_after(a)) for a in args]
+            if any("scrape_exports" in x for x in shown):
+                touches.append((bb.short.replace("aquatic_udp::", ""), callee.split("::")[-1], tuple(shown)))
+    touches = sorted(set(touches))
+    want = [("swarm::TorrentMaps::clean_and_update_statistics", "create", ("ScrapeExportConfig::tmp_path(config.scrape_exports)",)),
+            ("swarm::TorrentMaps::clean_and_update_statistics", "rename", ("ScrapeExportConfig::tmp_path(config.scrape_exports)", "config.scrape_exports.path"))]
+    extra = [t for t in touches if t not in want]
+    yield ob("R-C20-1b", "export#final_path_only_renamed_onto", n_calls >= 3 and all(w in touches for w in want) and not extra, None, None,
+             "%d std::fs calls in aquatic_udp; those naming the export paths: %s; unexpected: %s" % (n_calls, [(t[1], t[2]) for t in touches], extra),
+             {"fs_calls": n_calls, "export_path_calls": [list(map(str, t)) for t in touches]})
+
+
 @PROP.rule("R-C20-2", floor=2, doc="export content: the counts of this pass for this torrent, only when it has peers")
 def content(fx):
     b = fx.fn(SW + "::TorrentMapShards::clean_and_get_statistics")
